@@ -18,6 +18,7 @@
 /* ======   Dependencies   ====== */
 #include "../common/allocations.h" /* ZSTD_customMalloc, ZSTD_customCalloc, ZSTD_customFree */
 #include "../common/zstd_deps.h"   /* ZSTD_memcpy, ZSTD_memset, INT_MAX, UINT_MAX */
+#include "../common/zstd_verif.h"  /* ZSTD_VERIF_PROBE : inert unless ZSTD_VERIF_SIM */
 #include "../common/mem.h"         /* MEM_STATIC */
 #include "../common/pool.h"        /* threadpool */
 #include "../common/threading.h"   /* mutex */
@@ -1466,6 +1467,7 @@ static size_t ZSTDMT_createCompressionJob(ZSTDMT_CCtx* mtctx, size_t srcSize, ZS
         DEBUGLOG(5, "ZSTDMT_createCompressionJob: no worker available for job %u", mtctx->nextJobID);
         mtctx->jobs[jobID].workerActive = 0;
         mtctx->jobReady = 1;
+        ZSTD_VERIF_PROBE(ZSTD_VP_mtJobTableFull);
     }
     return 0;
 }
@@ -1686,6 +1688,7 @@ static int ZSTDMT_tryGetInputRange(ZSTDMT_CCtx* mtctx)
         buffer.capacity = prefixSize;
         if (ZSTDMT_isOverlapped(buffer, inUse)) {
             DEBUGLOG(5, "Waiting for buffer...");
+            ZSTD_VERIF_PROBE(ZSTD_VP_mtInputRangeBusy);
             return 0;
         }
         ZSTDMT_waitForLdmComplete(mtctx, buffer);
@@ -1698,6 +1701,7 @@ static int ZSTDMT_tryGetInputRange(ZSTDMT_CCtx* mtctx)
 
     if (ZSTDMT_isOverlapped(buffer, inUse)) {
         DEBUGLOG(5, "Waiting for buffer...");
+        ZSTD_VERIF_PROBE(ZSTD_VP_mtInputRangeBusy);
         return 0;
     }
     assert(!ZSTDMT_isOverlapped(buffer, mtctx->inBuff.prefix));
